@@ -345,7 +345,12 @@ func GenStream(t *rapid.T, cfg OutCfg, o StreamOpts) []SrcCmd {
 	}
 	var out []SrcCmd
 	sel := func() SrcCmd {
-		return SrcCmd{Name: rapid.SampledFrom([]string{"SELECT", "select"}).Draw(t, "selname"), Args: []pbt.B{[]byte(strconv.Itoa(rapid.IntRange(0, 15).Draw(t, "db")))}}
+		db := rapid.IntRange(0, 15).Draw(t, "db")
+		if len(cfg.DbBlacklist) > 0 && rapid.IntRange(0, 2).Draw(t, "toBlacklistedDb") == 0 {
+			// with a database blacklist the interesting streams move into and out of the blacklisted databases
+			db = rapid.SampledFrom(cfg.DbBlacklist).Draw(t, "blackDb")
+		}
+		return SrcCmd{Name: rapid.SampledFrom([]string{"SELECT", "select"}).Draw(t, "selname"), Args: []pbt.B{[]byte(strconv.Itoa(db))}}
 	}
 	out = append(out, sel())
 	n := rapid.IntRange(1, o.MaxCmds).Draw(t, "ncmds")
@@ -362,6 +367,11 @@ func GenStream(t *rapid.T, cfg OutCfg, o StreamOpts) []SrcCmd {
 			// transaction; Redis emits SELECT before MULTI when the db differs, never inside (clients may not switch DB... they may, rarely)
 			k := rapid.SampledFrom([]int{0, 1, 1, 2, 2, 3, 4, 5, 8, 12}).Draw(t, "txnlen")
 			out = append(out, SrcCmd{Name: rapid.SampledFrom([]string{"MULTI", "multi"}).Draw(t, "mname")})
+			if k > 0 && rapid.IntRange(0, 3).Draw(t, "selAfterMulti") == 0 {
+				// Redis 7 propagates MULTI without a database: when the transaction runs in another database than the previous command,
+				// the SELECT follows the MULTI instead of preceding it
+				out = append(out, sel())
+			}
 			for i := 0; i < k; i++ {
 				if rapid.IntRange(0, 24).Draw(t, "selInTxn") == 0 {
 					out = append(out, sel())
